@@ -141,7 +141,7 @@ func zzC08World() (g *zzGen, permuted []parser.K8sObject) {
 	g.Objs = ref
 	// the permuted spelling of the same resources
 	var other []parser.K8sObject
-	perm := vf_Choose("perm", 2+2*vf_Tier()) + 1 - vf_Tier() // quick: 1, 2; thorough: 0..3
+	perm := vf_Choose("perm", 3) + 1 // 0 (same documents, only the schedule differs) is subsumed by the others
 	switch perm {
 	case 0: // same documents, same order: only the map schedule differs
 		other = ref
